@@ -384,10 +384,31 @@ class Hugr(Mapping[Node, NodeData], Generic[OpVarCov]):
             sub_offset = next(
                 i for i, inp in enumerate(self.linked_ports(src)) if inp == dst
             )
-            self._links.delete_left(_SubPort(src, sub_offset))
         except StopIteration:
             return
-        # TODO make sure sub-offset is handled correctly
+        self._delete_sub_link(_SubPort(src, sub_offset))
+
+    def _delete_sub_link(self, src_sub: _SO) -> None:
+        """Remove the link stored at the source sub-port `src_sub` and shift the
+        later sub-offsets of both of its ports down by one, so that the used
+        sub-offsets of every port stay contiguous (relative order is kept).
+        """
+        dst_sub = self._links.fwd[src_sub]
+        self._links.delete_left(src_sub)
+
+        nxt = src_sub.next_sub_offset()
+        while nxt in self._links.fwd:
+            moved = self._links.fwd[nxt]
+            self._links.delete_left(nxt)
+            self._links.insert_left(src_sub, moved)
+            src_sub, nxt = nxt, nxt.next_sub_offset()
+
+        nxt_in = dst_sub.next_sub_offset()
+        while nxt_in in self._links.bck:
+            moved_src = self._links.bck[nxt_in]
+            self._links.delete_right(nxt_in)
+            self._links.insert_left(moved_src, dst_sub)
+            dst_sub, nxt_in = nxt_in, nxt_in.next_sub_offset()
 
     def root_op(self) -> OpVarCov:
         """The operation of the root node.
